@@ -10,45 +10,47 @@ CONSTANT Tier
 
 D(n) == Dec(n, "plain")
 
-AF == FeeInfo("askfee1", Dec(5000, "plain"))
-BF == FeeInfo("bidfee1", Dec(2500, "plain"))
-Cfgs == IF Tier = "quick"
-        THEN {InstMsg("ats", "base", <<"cv1">>, <<"q1">>, <<"appr1">>, <<"exec1">>, NoFeeInfo, BF, <<>>, <<>>, 1, 10)}
-        ELSE {InstMsg("ats", "base", <<"cv1">>, <<"q1">>, <<"appr1">>, <<"exec1">>, a, b, <<>>, <<>>, 1, 10)
-                : a \in {NoFeeInfo, AF}, b \in {NoFeeInfo, BF}}
+AF == FeeInfo("askfee1", Dec(500000, "plain"))
+BF == FeeInfo("bidfee1", Dec(250000, "plain"))
 
-Envs == {[marker |-> [d \in {"base", "cv1", "q1"} |-> "coin"], attrs |-> <<>>]}
+\* two grids: one decimal / lots of 10, and three decimals / lots of 1000
+Grids == {
+  [prec |-> 1, inc |-> 10, askp |-> {D(5000), D(10000), D(15000)}, bidp |-> {D(15000), D(25000)}, third |-> D(20000),
+   sizes |-> IF Tier = "quick" THEN {20} ELSE {10, 20}, exec |-> {1, 2, 3, 4, 5, 10, 15, 20, 21}, rej |-> {5, 10, 20}],
+  [prec |-> 3, inc |-> 1000, askp |-> {D(10010), D(10050)}, bidp |-> {D(10050), D(10100)}, third |-> D(10020),
+   sizes |-> {1000}, exec |-> {4, 5, 100, 200, 996, 1000}, rej |-> {500, 1000}] }
+
+Fees == IF Tier = "quick" THEN {<<NoFeeInfo, BF>>} ELSE {<<a, b>> : a \in {NoFeeInfo, AF}, b \in {NoFeeInfo, BF}}
+Envs == {[marker |-> [d \in {"base", "cv1", "q1"} |-> "coin"], attrs |-> <<>>, grid |-> g, fees |-> f] : g \in Grids, f \in Fees}
 
 Init == /\ st = EmptyState
         /\ cenv \in Envs
         /\ act = NoAct
 
-AskPrices == {D(5000), D(10000), D(15000)}
-BidPrices == {D(15000), D(25000)}
-OrderSizes == IF Tier = "quick" THEN {20} ELSE {10, 20}
-ExecSizes == {1, 2, 3, 4, 5, 10, 15, 20, 21}
+G == cenv.grid
+Cfg == InstMsg("ats", "base", <<"cv1">>, <<"q1">>, <<"appr1">>, <<"exec1">>, cenv.fees[1], cenv.fees[2], <<>>, <<>>, G.prec, G.inc)
 Tot(p, s) == (p.n * s) \div SCALE
 
 AskReqs == {RCreateAsk("seller1", Coins1(b, s), "a1", b, "q1", p, s)
-              : b \in (IF Tier = "quick" THEN {"base"} ELSE {"base", "cv1"}), p \in AskPrices, s \in OrderSizes}
+              : b \in (IF Tier = "quick" THEN {"base"} ELSE {"base", "cv1"}), p \in G.askp, s \in G.sizes}
 BidReqs(S) ==
   {RCreateBid("buyer1", Coins1("q1", Tot(p, s) + FeeAmt(BidFeeFor(S.cfg, "q1", Tot(p, s)))),
               "b1", "base", BidFeeFor(S.cfg, "q1", Tot(p, s)), p, "q1", Tot(p, s), s)
-     : p \in BidPrices, s \in OrderSizes}
+     : p \in G.bidp, s \in G.sizes}
 ApproveReqs(S) ==
   IF "a1" \in DOMAIN S.asks /\ S.asks["a1"].class = "pending"
   THEN {RApproveAsk("appr1", Coins1("base", S.asks["a1"].size), "a1", "base", S.asks["a1"].size)} ELSE {}
 ReverseReqs ==
        {RReverse("cancel_ask", "seller1", NoFunds, "a1", NoSize), RReverse("expire_ask", "exec1", NoFunds, "a1", NoSize),
         RReverse("cancel_bid", "buyer1", NoFunds, "b1", NoSize), RReverse("expire_bid", "exec1", NoFunds, "b1", NoSize)}
-  \cup {RReverse("reject_ask", "exec1", NoFunds, "a1", s) : s \in {NoSize, 5, 10, 20}}
-  \cup {RReverse("reject_bid", "exec1", NoFunds, "b1", s) : s \in {NoSize, 5, 10, 20}}
+  \cup {RReverse("reject_ask", "exec1", NoFunds, "a1", s) : s \in {NoSize} \cup G.rej}
+  \cup {RReverse("reject_bid", "exec1", NoFunds, "b1", s) : s \in {NoSize} \cup G.rej}
 MatchReqs(S) ==
   IF "a1" \in DOMAIN S.asks /\ "b1" \in DOMAIN S.bids
-  THEN {RMatch("exec1", NoFunds, "a1", "b1", p, s) : p \in {S.asks["a1"].price, S.bids["b1"].price, D(20000)}, s \in ExecSizes}
+  THEN {RMatch("exec1", NoFunds, "a1", "b1", p, s) : p \in {S.asks["a1"].price, S.bids["b1"].price, G.third}, s \in G.exec}
   ELSE {}
 
-DoInstantiate == ~st.cfg.set /\ \E m \in Cfgs : Step(RInstantiate(m))
+DoInstantiate == ~st.cfg.set /\ Step(RInstantiate(Cfg))
 DoCreateAsk   == st.cfg.set /\ \E r \in AskReqs : Step(r)
 DoCreateBid   == st.cfg.set /\ \E r \in BidReqs(st) : Step(r)
 DoApprove     == st.cfg.set /\ \E r \in ApproveReqs(st) : Step(r)
